@@ -71,8 +71,8 @@ PROPS["C03"] = dict(
               dict(mode="num6", enum=True, size=1111110, workers=16),
               dict(mode="gen", fuzz=True, secs=300, jobs=8, max_len=512),
               dict(mode="bytes", fuzz=True, secs=300, jobs=8, max_len=80, dict="fuzz/tokener_parse_ex.dict")],
-    min_labels=dict(quick=dict(split_inside_token=10000, stream_resumed=2000, src_mutated=3000, src_soup=2000)),
-    assumptions=["texts <= 400 bytes in the generated modes", "with VALIDATE_UTF8 a chunk ending inside a multi-byte character is an error for that chunk (one-shot on the prefix errs too), so the premise 'more input needed' does not hold and nothing is demanded (label utf8_chunk_mid_char)"],
+    min_labels=dict(quick=dict(split_inside_token=10000, stream_resumed=2000, src_mutated=3000, src_soup=1200, src_number_soup=600, src_long_token=800)),
+    assumptions=["texts <= 400 bytes in the generated modes except the long-token family (one token of 0.6-9 KiB, sampled splits)", "with VALIDATE_UTF8 a chunk ending inside a multi-byte character is an error for that chunk (one-shot on the prefix errs too), so the premise 'more input needed' does not hold and nothing is demanded (label utf8_chunk_mid_char)"],
 )
 
 PROPS["C04"] = dict(
@@ -106,7 +106,7 @@ PROPS["C15"] = dict(
     thorough=[dict(mode="gen", cases=6000000, workers=16, maxbytes=12000),
               dict(mode="boundary", enum=True, size=6912, workers=2),
               dict(mode="gen", fuzz=True, secs=300, jobs=8, max_len=2048)],
-    min_labels=dict(quick=dict(at_limit=10000, one_over=10000, below_limit=10000, hostile_deep=2000, from_fd_ex=2000, refused_depth=1000)),
+    min_labels=dict(quick=dict(at_limit=10000, one_over=10000, below_limit=10000, hostile_deep=2000, from_fd_ex=2000, from_fd_ex_multi_block=1500, refused_depth=1000)),
     assumptions=["D <= 2000", "the accepted window for the error offset runs from the end of the preceding token to one byte past the first byte of the first too-deep value"],
 )
 
@@ -273,8 +273,8 @@ PROPS["C12"] = dict(
                "reference set (tree equality after every set, get-after-set identity, ownership on success and failure); getf/setf must agree with get/set",
     level_note="for an array index beyond the length json_pointer.h documents storage via json_object_array_put_idx (null padding); that documented behaviour is accepted",
     rule="tree + all its node paths + mutated pointers + set history; non-trivial = some pointer has >= 2 tokens or needs unescaping, or a set was performed; distinct by tree hash",
-    quick=[dict(mode="gen", cases=40000, workers=8)],
-    thorough=[dict(mode="gen", cases=3000000, workers=16), dict(mode="gen", fuzz=True, secs=300, jobs=8, max_len=1024)],
+    quick=[dict(mode="gen", cases=40000, workers=8), dict(mode="fmtlen", enum=True, size=1200, workers=2)],
+    thorough=[dict(mode="gen", cases=3000000, workers=16), dict(mode="fmtlen", enum=True, size=1200, workers=2), dict(mode="gen", fuzz=True, secs=300, jobs=8, max_len=1024)],
     min_labels=dict(quick=dict(set=50000, mutated_pointer_fails=100000, mutated_pointer_resolves=6000)),
     assumptions=["root is not JSON null (json_pointer_get refuses a NULL object)", "set indices in (length+3, SIZE_MAX/16) are not generated (would need real memory)"],
 )
